@@ -11,6 +11,8 @@ import NoulithModel.Theorems.C10
 import NoulithModel.Theorems.C12
 import NoulithModel.Theorems.C15
 import NoulithModel.Theorems.C16
+import NoulithModel.Theorems.C10State
+import NoulithModel.Theorems.C12NoRollback
 
 namespace Noulith.C14Core
 
@@ -39,5 +41,19 @@ theorem int_radix_no_panic : type_of% @Noulith.C16.intRadix_no_panic := @Noulith
 theorem decompress_no_panic : type_of% @Noulith.C16.decompress_no_panic := @Noulith.C16.decompress_no_panic
 theorem chr_no_panic : type_of% @Noulith.C16.chr_no_panic := @Noulith.C16.chr_no_panic
 theorem ord_no_panic : type_of% @Noulith.C16.ord_no_panic := @Noulith.C16.ord_no_panic
+
+/-! the parser model always answers (accepts or rejects): no input makes it run out of its linear fuel,
+so parsing never hangs -/
+theorem parser_always_answers : type_of% @Noulith.C15.parse_decides := @Noulith.C15.parse_decides
+
+/-! "after a caught error … variables not named by the failing statement keep their values", and the
+named one too when the write is refused: a raising indexed write / pop / remove leaves the variable as
+it was, on every sequence kind -/
+theorem failed_indexed_write_preserves_variable : type_of% @Noulith.C10.failed_write_preserves := @Noulith.C10.failed_write_preserves
+theorem failed_pop_remove_preserves_variable : type_of% @Noulith.C10.failed_modify_preserves := @Noulith.C10.failed_modify_preserves
+
+/-! pattern assignment of EVERY pattern (alternatives without rollback included) ends in acceptance or a
+catchable refusal with the environment the Spec states, never a panic -/
+theorem pattern_assign_all_patterns : type_of% @Noulith.C12.assign_eq_specNR := @Noulith.C12.assign_eq_specNR
 
 end Noulith.C14Core
